@@ -34,6 +34,12 @@ RIM = [c for c in sorted(h3.k_ring(A.CELL_A, 80))
        if h3.h3_to_parent(c, A.SEARCH_RES) == h3.h3_to_parent(A.CELL_A, A.SEARCH_RES)
        and h3.geo_to_h3(*h3.h3_to_geo(c), A.SEARCH_RES) != h3.h3_to_parent(c, A.SEARCH_RES)][0]
 POSX = tuple(A.POS[i] for i in CELL_IDX) + (A.NET.position_from_geoid(RIM),)
+if os.environ.get("VF_SHARED_LINK") == "1":
+    # street-graph style positions: many cells lie on ONE link (same link id, different cell) -- on the straight-line network
+    # every cell has a link id of its own, which hides any comparison made on link ids instead of cells
+    from nrel.hive.model.entity_position import EntityPosition as _EP
+
+    POSX = tuple(_EP("1-2", p.geoid) for p in POSX)
 N_CELLS = len(POSX)
 IDS = {0: ("v0", "v1", "v10"), 1: ("r0", "r1", "r2"), 2: ("s0", "s1", "s2"), 3: ("b0", "b1", "b2")}[EK]
 PROTO = {0: A.V0, 1: A.R0, 2: A.S0, 3: A.B0}[EK]
@@ -44,6 +50,25 @@ EMPTY = A.SIM0._replace(
     stations=immutables.Map(), bases=immutables.Map(), s_locations=immutables.Map(), s_search=immutables.Map(),
     b_locations=immutables.Map(), b_search=immutables.Map(),
 )
+
+
+GENERIC = os.environ.get("VF_GENERIC") == "1"
+AT_KEY = ("vehicles", "requests", "station", "base")[EK]
+
+
+def _lookup_ok(sim2):
+    """the location lookup API (SimulationState.at_geoid, get_*_ids) finds every entity of the kind at its cell and nowhere else"""
+    coll = getattr(sim2, COLL)
+    ids = (sim2.get_vehicle_ids, sim2.get_request_ids, sim2.get_station_ids, sim2.get_base_ids)[EK]()
+    if tuple(ids) != tuple(sorted(coll.keys())):
+        return False
+    for k in range(N_CELLS):
+        g = POSX[k].geoid
+        found = sim2.at_geoid(g)[AT_KEY]
+        want = frozenset(eid for eid, e in coll.items() if e.geoid == g)
+        if frozenset(found) != want:
+            return False
+    return True
 
 
 def _cell(i):
@@ -85,6 +110,10 @@ def _apply_op(sim, OP, target_id, ncell, touch):
             ent = replace(ent, balance=ent.balance + 1.0)
         else:
             ent = replace(ent, total_stalls=ent.total_stalls + 1, available_stalls=ent.available_stalls + 1)
+    if GENERIC and OP == 0:
+        return sso.add_entities_safe(sim, (ent,)), ent  # the class-name dispatch of add_entity_safe, through the multi-entity fold
+    if GENERIC and OP == 1:
+        return sso.modify_entities_safe(sim, (ent,)), ent
     if OP == 0:
         return (sso.add_vehicle_safe, sso.add_request_safe, sso.add_station_safe, sso.add_base_safe)[EK](sim, ent), ent
     if OP == 1:
@@ -119,6 +148,10 @@ def h_idx(c0: int, c1: int, p1: bool, tgt: int, nc: int, touch: bool) -> bool:
     if OP == 3:
         sim2, popped = sim2
     if not I.idx_ok(sim2):
+        return False
+    with boot.no_tracing():  # (ids and cells are concrete on every path: plain evaluation of the real lookup functions)
+        looked_up = _lookup_ok(sim2)
+    if not looked_up:
         return False
     coll2 = getattr(sim2, COLL)
     old = getattr(sim, COLL).get(target_id)
